@@ -48,9 +48,13 @@ QUOTED_AND_SHARED = ['bs(x, df=4, extrapolation="clip")', 'C(a, contr.treatment(
                      "scale(x) + scale(x):a", "scale(x) + scale(x, ddof=0) + center(x)", "center(bs(x, df=3))",
                      "scale(cr(x, df=3))", "bs(x, df=3) + bs(w, df=3) + bs(x, df=4)", "C(a) + C(a, contr.sum):x",
                      "poly(x, 2) + poly(x, 3)", "a + C(a, contr.helmert):g"]
+# numeric-literal multipliers: the scale of a term is part of the recorded structure
+LITERAL_SCALE = ["3:x", "a:2", "0.5:scale(x):a", "2:bs(x, df=3) - 1", "x + 2:z", "2.5:a - 1", "x:3:z", "0.5:a:x + a",
+                 "10:center(x)", "3:a:C(g, contr.sum)", "2:poly(x, 2) + 0.25:C(a, contr.helmert)", "4:cr(x, df=3):g",
+                 "2:x + 3:x:w", "1.5:k:scale(z) - 1"]
 TWO_SIDED = ["z ~ a + scale(x)", "center(z) ~ bs(x, df=3) + g", "scale(w) + center(z) ~ C(a, contr.sum):x"]
 FAMILIES = {"stateless": STATELESS, "scaling": SCALING, "poly": POLY, "bs": BS, "cubic": CUBIC, "categorical": CATEG,
-            "interaction": INTERACT, "quoted-or-shared-state": QUOTED_AND_SHARED, "two-sided": TWO_SIDED}
+            "interaction": INTERACT, "quoted-or-shared-state": QUOTED_AND_SHARED, "literal-scale": LITERAL_SCALE, "two-sided": TWO_SIDED}
 SINGLE_TERMS = STATELESS + SCALING + POLY + BS + CUBIC + CATEG  # building blocks of the random sums
 
 
@@ -388,7 +392,10 @@ def _jobs(rng, thorough):
         for formula in lst:
             for t in range(n_trains):
                 cols = make_train(random.Random(rng.random()), rng.choice([9, 12, 20, 33]), storage_variant=t)
-                for output in outputs:
+                # quick tier: the families whose sparse / numpy encoders differ get all outputs, the others pandas + one more
+                outs = outputs if (thorough or fam in ("categorical", "interaction", "literal-scale", "two-sided")) \
+                    else ["pandas", outputs[1 + len(jobs) % 2]]
+                for output in outs:
                     jobs.append({"formula": formula, "cols": cols, "output": output, "seed": rng.randrange(10**9),
                                  "family": fam, "n_histories": 4 if thorough else 1, "all_routes": thorough,
                                  "route_phase": len(jobs) % 3})
@@ -396,6 +403,9 @@ def _jobs(rng, thorough):
     for i in range(600 if thorough else 40):
         terms = rng.sample(SINGLE_TERMS + INTERACT, rng.randint(2, 3))
         terms = [t.replace(" - 1", "") for t in terms]
+        # any term may carry a numeric-literal multiplier
+        terms = [(rng.choice(["2", "3", "0.5", "2.5", "10"]) + ":" + t) if rng.random() < 0.3 and not t.startswith("(") else t
+                 for t in terms]
         formula = " + ".join(terms) + rng.choice(["", "", " - 1", " + 0"])
         cols = make_train(random.Random(rng.random()), rng.choice([10, 16, 25, 40]), storage_variant=i)
         jobs.append({"formula": formula, "cols": cols, "output": rng.choice(outputs), "seed": rng.randrange(10**9),
@@ -427,7 +437,8 @@ def run_bounded(ctx):
              "object and the original frame again afterwards; plus 5..15 new rows drawn from the training domain, "
              "materialized at once and as 3 selections (row-locality on unseen rows); distinct = (formula, output, training seed, route, history "
              "prefix with row indices); non-trivial iff the training materialization succeeded",
-        bound=f"{n_templates} single templates x {3 if ctx.thorough else 1} training frame(s) x 3 outputs + "
+        bound=f"{n_templates} single templates x {3 if ctx.thorough else 1} training frame(s) x 3 outputs (quick: 2 for the "
+              f"purely numeric families) + "
               f"{600 if ctx.thorough else 40} random sums of 2-3 templates; 9..40 rows",
     ) as b:
         rep = Reporter(ctx, b)
